@@ -248,6 +248,76 @@ theorem trusting_exact (ok : Nat → Nat → Bool) (vs : ValSet) (sigs : List CS
       simp [hlt, this]
   · simp [hw]
 
+/-- trusting soundness at ANY trust level, in spec form (what the driver evaluates on the
+    implementation for the op lines whose level is not 1/3) -/
+theorem trusting_sound_level_spec (ok : Nat → Nat → Bool) (n d : Nat) (vs : ValSet) (sigs : List CSig)
+    (hT : vs.total = sumPowers vs.vals) :
+    specTrustingSoundLevel n d (specInput vs 0 0 sigs) ok
+      (decide (verifyCommitLightTrusting ok n d vs sigs = .ok)) = true := by
+  unfold specTrustingSoundLevel
+  by_cases hacc : verifyCommitLightTrusting ok n d vs sigs = .ok
+  · have := trusting_sound_level ok n d vs sigs hacc
+    rw [hT, ← total_eq vs 0 0 sigs] at this
+    simp only [hacc, decide_true, Bool.not_true, Bool.false_or, decide_eq_true_eq]
+    exact this
+  · simp [hacc]
+
+/-- the "exactly when" clause of trusting verification at ANY trust level `n/d`: accepted iff the
+    level is usable (`d ≠ 0`, `n·total < 2^64`) and the distinct trusted signers carry strictly
+    more than `n/d` of the total -/
+theorem trusting_exact_level (ok : Nat → Nat → Bool) (n d : Nat) (vs : ValSet) (sigs : List CSig)
+    (hwf : vs.wf = true) :
+    specTrustingExactLevel n d (specInput vs 0 0 sigs) ok
+      (decide (verifyCommitLightTrusting ok n d vs sigs = .ok)) = true := by
+  unfold specTrustingExactLevel
+  by_cases hw : wellFormedTrusting (specInput vs 0 0 sigs) ok = true
+  · simp only [hw, Bool.not_true, Bool.false_or, beq_iff_eq]
+    simp only [wellFormedTrusting, Bool.and_eq_true, List.all_eq_true, List.mem_range] at hw
+    obtain ⟨hall, hnd⟩ := hw
+    simp only [ValSet.wf, Bool.and_eq_true, beq_iff_eq, decide_eq_true_eq] at hwf
+    obtain ⟨hT, hmax⟩ := hwf
+    rw [total_eq, ← hT]
+    by_cases hov : n * vs.total ≥ U64_LIMIT
+    · have hlim : ¬ (n * vs.total < 18446744073709551616) := by simp only [U64_LIMIT] at hov; omega
+      have : verifyCommitLightTrusting ok n d vs sigs = .err .neededOverflow := by
+        unfold verifyCommitLightTrusting votingPowerNeeded
+        rw [if_pos hov]
+      simp [this, hlim]
+    have hlim : n * vs.total < 18446744073709551616 := by simp only [U64_LIMIT] at hov; omega
+    by_cases hd : d = 0
+    · have : verifyCommitLightTrusting ok n d vs sigs = .err .neededDivZero := by
+        unfold verifyCommitLightTrusting votingPowerNeeded
+        rw [if_neg hov, if_pos hd]
+      rw [this]
+      simp [hd]
+    have hdpos : 0 < d := by omega
+    have hnd' : (owners vs.vals sigs).Nodup := owners_nodup vs.vals sigs hnd
+    have hav : allValidT ok vs.vals 0 sigs = true := by
+      apply allValidT_of ok vs 0 0 sigs 0 sigs
+      intro j hj
+      have := hall j (by simpa [specInput] using hj)
+      simpa [specInput, entry] using this
+    have hle := ownerPow_le_sum vs.vals sigs hnd'
+    have hb : 0 + ownerPow vs.vals sigs < U64_LIMIT := by
+      simp only [MAX_TOTAL_VOTING_POWER] at hmax
+      simp only [U64_LIMIT]
+      omega
+    have hex := trustLoop_prefix ok (n * vs.total / d) vs.vals [] sigs 0 [] 0
+      hav hnd' (fun _ _ => by simp) hb (Nat.zero_le _)
+    have htr : verifyCommitLightTrusting ok n d vs sigs =
+        if n * vs.total / d < ownerPow vs.vals sigs then .ok
+        else .err (.notEnough (ownerPow vs.vals sigs) (n * vs.total / d)) := by
+      unfold verifyCommitLightTrusting votingPowerNeeded
+      rw [if_neg hov, if_neg hd]
+      simpa [trustLoop] using hex
+    rw [htr, trustedSigningPower_eq vs 0 0 sigs hnd']
+    have hiff := needed_strict (ownerPow vs.vals sigs) n vs.total d hdpos
+    by_cases hlt : n * vs.total / d < ownerPow vs.vals sigs
+    · simp [hlt, hiff.mp hlt, hdpos, hlim]
+    · have : ¬ (n * vs.total < d * ownerPow vs.vals sigs) := fun hc => hlt (hiff.mpr hc)
+      simp [hlt, this]
+  · simp [hw]
+
 /-- **A duplicated trusted validator is an ERROR, not a skipped entry.**  Let the commit be
     `pre ++ d :: rest` where `pre` satisfies the hypothesis of `trusting_exact` and `d` is a
     block-commit entry (carrying a signature, valid or not) whose address is that of a trusted
